@@ -344,7 +344,18 @@ def one_tree(tspec, acc, rnd, sample=False, forced=None):
             case = {"kind": "filtered", "spec": tspec, "mp": mp_rel, "use_regex": use_regex, "patterns": [p.replace(root, "<ROOT>") for p in pats], "include": include}
             HUB.case = case
             kw = {"exclusions": (), "regex_exclusions": tuple(pats)} if use_regex else {"exclusions": tuple(pats)}
-            get_evaluable_architecture(root, mp_abs, **kw, **inc_kw)
+            via_objects = fr.get("entry") == "object" if fr else rnd.random() < 0.3
+            if via_objects:
+                # the same request through the module-object entry point: patterns mean what they mean for paths
+                from pytestarch import get_evaluable_architecture_for_module_objects
+
+                from ..combos import _fake_module
+
+                case["entry"] = "object"
+                get_evaluable_architecture_for_module_objects(_fake_module(root), _fake_module(mp_abs), **kw, **inc_kw)
+                acc.count("filtered_scans_through_the_module_object_entry_point")
+            else:
+                get_evaluable_architecture(root, mp_abs, **kw, **inc_kw)
             se = HUB.scan_events[-1]
             acc.evaluated()
             # the same patterns handed over as a list and as a one-shot generator: if the scan gives an architecture
@@ -424,12 +435,14 @@ def replay(case, acc):
         return
     if case["kind"] == "excluded-unparsable":
         return excluded_unparsable(case["spec"], acc, random.Random(0), forced={"placed": case["placed"], "use_regex": case["use_regex"]})
-    forced = {"mp": case["mp"], "use_regex": case.get("use_regex", False), "patterns": case.get("patterns", []), "include": case.get("include", False)}
+    forced = {"mp": case["mp"], "use_regex": case.get("use_regex", False), "patterns": case.get("patterns", []), "include": case.get("include", False), "entry": case.get("entry")}
     one_tree(case["spec"], acc, random.Random(0), forced=forced)
 
 
 def floors(acc, tier):
     why = []
+    if acc.counters["filtered_scans_through_the_module_object_entry_point"] < 50:
+        why.append(f"only {acc.counters['filtered_scans_through_the_module_object_entry_point']} filtered scans through the module-object entry point")
     if acc.counters["conversion_pairs"] < 100000:
         why.append(f"conversion pairs: {acc.counters['conversion_pairs']}")
     h = acc.hists.get("effect", {})
